@@ -18,7 +18,49 @@ import (
 // C06.text — a source without opening delimiters renders to itself
 
 type c06Text struct {
-	Src []byte `json:"src"`
+	Src   []byte `json:"src"`
+	Route string `json:"route,omitempty"` // how the source reaches the engine; "" = FromBytes
+}
+
+// every way a source can reach the engine: the From*/Render* entry points of a set (bytes, string,
+// through the loaders, through the cache) and being pulled in by another template
+var c06Routes = []string{"FromBytes", "FromString", "FromFile", "FromCache", "RenderTemplateString", "RenderTemplateBytes", "RenderTemplateFile", "include", "ssi"}
+
+func c06RenderVia(route string, src []byte, ctx pongo2.Context) (string, error) {
+	if route == "" || route == "FromBytes" {
+		return c06RenderBytes(src, ctx)
+	}
+	set := pongo2.NewSet("c06", &memLoader{files: map[string]string{"/t.tpl": string(src), "/inc.tpl": `{% include "/t.tpl" %}`, "/ssi.tpl": `{% ssi "/t.tpl" parsed %}`}})
+	var tpl *pongo2.Template
+	var err error
+	switch route {
+	case "FromString":
+		tpl, err = set.FromString(string(src))
+	case "FromFile":
+		tpl, err = set.FromFile("/t.tpl")
+	case "FromCache":
+		tpl, err = set.FromCache("/t.tpl")
+	case "include":
+		tpl, err = set.FromFile("/inc.tpl")
+	case "ssi":
+		tpl, err = set.FromFile("/ssi.tpl")
+	case "RenderTemplateString":
+		return set.RenderTemplateString(string(src), ctx)
+	case "RenderTemplateBytes":
+		return set.RenderTemplateBytes(append([]byte(nil), src...), ctx)
+	case "RenderTemplateFile":
+		return set.RenderTemplateFile("/t.tpl", ctx)
+	default:
+		return "", fmt.Errorf("unknown route %q", route)
+	}
+	if err != nil {
+		return "", fmt.Errorf("compile: %w", err)
+	}
+	out, err := tpl.ExecuteBytes(ctx)
+	if err != nil {
+		return "", fmt.Errorf("execute: %w", err)
+	}
+	return string(out), nil
 }
 
 var c06Alphabet = []byte{'{', '}', '%', '#', '-', '"', '\'', '\\', '\n', ' ', 'a', 0x01}
@@ -111,14 +153,17 @@ func checkC06Text(c any, r *Rec) error {
 		r.Class("has-delimiter(totality only)")
 		return nil
 	}
-	out, err := c06RenderBytes(cs.Src, pongo2.Context{})
+	out, err := c06RenderVia(cs.Route, cs.Src, pongo2.Context{})
 	if err != nil {
-		return fmt.Errorf("delimiter-free source %q failed: %v", cs.Src, err)
+		return fmt.Errorf("delimiter-free source %q failed (%s): %v", cs.Src, cs.Route, err)
 	}
 	if out != string(cs.Src) {
-		return fmt.Errorf("delimiter-free source does not render to itself:\n src=%q\n out=%q", cs.Src, out)
+		return fmt.Errorf("delimiter-free source does not render to itself (route %s):\n src=%q\n out=%q", cs.Route, cs.Src, out)
 	}
 	r.Class("identity")
+	if cs.Route != "" {
+		r.Class("route:" + cs.Route)
+	}
 	if significantByte(cs.Src) {
 		r.NonTrivial(string(cs.Src))
 	}
@@ -127,9 +172,9 @@ func checkC06Text(c any, r *Rec) error {
 
 var _ = register(&propSpec{
 	ID:   "C06.text",
-	Rule: "byte strings built without {{ {% {# (lexer-significant chars, control bytes incl. 0x01, high bytes/invalid UTF-8, CR/LF, BOM, multi-byte); must render to themselves byte for byte. Non-trivial: contains a lexer-significant, control or non-ASCII byte; distinct by source bytes.",
+	Rule: "byte strings built without {{ {% {# (lexer-significant chars, control bytes incl. 0x01, high bytes/invalid UTF-8, CR/LF, BOM, multi-byte), handed to the engine by a drawn route (FromBytes with the caller's buffer scribbled afterwards, FromString, FromFile, FromCache, RenderTemplateString/Bytes/File, as the target of an include, as the target of ssi parsed); must render to themselves byte for byte. Non-trivial: contains a lexer-significant, control or non-ASCII byte; distinct by source bytes.",
 	Gen: func(t *rapid.T) any {
-		return &c06Text{Src: genDelimFreeBytes(t, "src", 40)}
+		return &c06Text{Src: genDelimFreeBytes(t, "src", 40), Route: pick(t, "route", c06Routes)}
 	},
 	New:   func() any { return &c06Text{} },
 	Check: checkC06Text,
@@ -172,6 +217,9 @@ func FuzzC06Text(f *testing.F) {
 	rec := newRec(s)
 	f.Fuzz(func(t *testing.T, src []byte) {
 		c := &c06Text{Src: src}
+		if len(src) > 0 {
+			c.Route = c06Routes[int(src[len(src)-1])%len(c06Routes)]
+		}
 		if err := evalCase(s, c, rec); err != nil {
 			p := writeReplay(s, c, err.Error())
 			t.Fatalf("VERIF-VIOLATION property=C06 spec=C06.text replay=%s: %v", p, err)
@@ -191,6 +239,7 @@ type c06Frag struct {
 
 type c06Frags struct {
 	Frags []c06Frag `json:"frags"`
+	Route string    `json:"route,omitempty"`
 }
 
 var c06TemplateTags = map[string]string{
@@ -248,7 +297,12 @@ func genC06Frag(t *rapid.T, i int) c06Frag {
 		case 1:
 			b = []byte(pick(t, lbl+".vj", c06CommentJunk))
 		case 2:
-			b = []byte("{% endverbatim%}{%endverbatim %}{% verbatim %}{{ x }}{# c #}")
+			b = []byte(pick(t, lbl+".vfix", []string{
+				"{% endverbatim%}{%endverbatim %}{% verbatim %}{{ x }}{# c #}",
+				"{% comment %}kept{% endcomment %}", "a{% comment %}", "{% endcomment %}b", "{# kept #}",
+				"{% comment %}{{ boom() }}{% endcomment %}tail", "{%- comment -%} x {%- endcomment -%}",
+				"{% templatetag openblock %}", "{% autoescape off %}", "{{- x -}}", "{% raw %}",
+			}))
 		default:
 			n := drawInt(t, 0, 14, lbl+".vlen")
 			for j := 0; j < n; j++ {
@@ -350,7 +404,7 @@ func checkC06Frags(c any, r *Rec) error {
 		// vars/blocks never call boom; only comment/verbatim bodies mention it
 		return fmt.Errorf("content of a comment/verbatim was evaluated %d time(s): %q", boom, whole)
 	}
-	got, err := c06RenderBytes(whole, ctx)
+	got, err := c06RenderVia(cs.Route, whole, ctx)
 	if err != nil {
 		return fmt.Errorf("concatenation %q failed although every fragment renders alone: %v", whole, err)
 	}
@@ -377,7 +431,7 @@ func checkC06Frags(c any, r *Rec) error {
 
 var _ = register(&propSpec{
 	ID:   "C06.frag",
-	Rule: "sequences of 1-8 fragments [text|verbatim(any bytes, empty, delimiters)|{# #}|comment tag (lexically valid junk calling boom())|{{ literal }}|deterministic tag block|templatetag], no '-' markers; oracle: whole == concatenation of parts rendered alone, verbatim==body, comments==\"\" and boom never called, templatetag from an independent table. Non-trivial: >=2 adjacent fragments of different kinds or a lexer-significant/control/non-ASCII byte; distinct by source.",
+	Rule: "sequences of 1-8 fragments [text|verbatim(any bytes, empty, delimiters)|{# #}|comment tag (lexically valid junk calling boom())|{{ literal }}|deterministic tag block|templatetag], no '-' markers, the whole handed over by a drawn route (From*/Render*/include/ssi parsed); verbatim bodies also hold comment tags, {# #} and trim markers; oracle: whole == concatenation of parts rendered alone, verbatim==body, comments==\"\" and boom never called, templatetag from an independent table. Non-trivial: >=2 adjacent fragments of different kinds or a lexer-significant/control/non-ASCII byte; distinct by source.",
 	Gen: func(t *rapid.T) any {
 		n := drawInt(t, 1, 8, "nfrags")
 		cs := &c06Frags{}
@@ -392,6 +446,7 @@ var _ = register(&propSpec{
 				cs.Frags[i-1].Body = append(cs.Frags[i-1].Body, '.')
 			}
 		}
+		cs.Route = pick(t, "route", c06Routes)
 		return cs
 	},
 	New:   func() any { return &c06Frags{} },
